@@ -361,7 +361,11 @@ func (p *pager) walTx(s txShape, rollback bool, repeat bool, splitWrites bool) {
 	}
 	rd := fmt.Sprintf("READ%d", p.r.Intn(5))
 	p.do(fmt.Sprintf("rlock %d %s", o, rd))
-	p.do(fmt.Sprintf("lock %d WRITE", o))
+	if got := p.do(fmt.Sprintf("lock %d WRITE", o)); got == "false" {
+		// SQLITE_BUSY: somebody else (e.g. a LiteFS snapshot capturing its position) holds the write lock
+		p.do(fmt.Sprintf("unlock %d %s", o, rd))
+		return
+	}
 	ck0, ck1, off := p.ck0, p.ck1, p.walOff
 	if !p.walInit {
 		p.salt1++
